@@ -318,6 +318,41 @@ def unitymix_projects(thorough):
     return out
 
 
+def preprocess_projects():
+    """compiler.preprocess(depends:): the preprocessed source includes a build-time generated file of any name (a header, an .inc
+    table, a .def list), produced by a single- or multi-output custom target that another target needs as well."""
+    out = []
+    for ext in ('h', 'inc', 'def', 'tab.c'):
+        for multi in (False, True):
+            for also in ('exe', 'alone'):
+                gen = 'gen_x.' + ext
+                files = {'a.c': '#include "%s"\nint a(void) { return GEN_X; }\n' % gen, 'gen.in': '#define GEN_X 3\n', 'main.c': '#include "%s"\nint main(void) { return GEN_X - 3; }\n' % gen,
+                         'other.in': 'other\n'}
+                L = ["project('pp', 'c', default_options: ['warning_level=0'])", "cp = find_program('cp')", "cc = meson.get_compiler('c')"]
+                if multi:
+                    L.append("ct = custom_target('gen', input: ['other.in', 'gen.in'], output: ['other.txt', '%s'], command: [cp, '@INPUT@', '@OUTDIR@'])" % gen)
+                    files['other.txt.unused'] = ''
+                    # cp a b DIR copies under the source names: name the inputs like the outputs
+                    files['other.txt'] = 'other\n'
+                    files[gen + '.src'] = ''
+                    L[-1] = "ct = custom_target('gen', input: ['other.txt.in', '%s.in'], output: ['other.txt', '%s'], command: ['sh', '-c', 'cp \"$0\" \"$2\" && cp \"$1\" \"$3\"', '@INPUT0@', '@INPUT1@', '@OUTPUT0@', '@OUTPUT1@'])" % (gen, gen)
+                    files['other.txt.in'] = 'other\n'
+                    files[gen + '.in'] = '#define GEN_X 3\n'
+                else:
+                    L.append("ct = custom_target('gen', input: 'gen.in', output: '%s', command: [cp, '@INPUT@', '@OUTPUT@'])" % gen)
+                L.append("pp = cc.preprocess('a.c', output: '@PLAINNAME@.i', include_directories: include_directories('.'), depends: ct)")
+                L.append("custom_target('use_pp', input: pp, output: 'pp.copy', command: [cp, '@INPUT@', '@OUTPUT@'], build_by_default: true)")
+                if also == 'exe':
+                    L.append("executable('app', 'main.c', ct%s)" % ('[1]' if multi else ''))
+                files['meson.build'] = '\n'.join(L) + '\n'
+                for k in [k for k in files if k.endswith(('.unused', '.src')) or (multi and k in ('gen.in', 'other.in', 'other.txt'))]:
+                    del files[k]
+                if ext == 'tab.c' and also == 'exe':
+                    continue      # a generated .c listed as a source of the executable would be compiled on its own
+                out.append(({'desc': 'preprocess: includes generated %s (%s custom target%s)' % (gen, 'second output of a two-output' if multi else 'single-output', ', also a source of an executable' if also == 'exe' else ''), 'files': files}, ()))
+    return out
+
+
 def jobs_for(ck):
     jobs = []
     idx = 0
@@ -369,6 +404,10 @@ def jobs_for(ck):
         for pl in (('root', 'allsub') if ck.thorough else (('root', 'allsub')[(gi + ck.seed) % 2],)):
             jobs.append((idx, spec, pl, False, ()))
             idx += 1
+    # compiler.preprocess(depends:) over generated files of any name
+    for spec, args in preprocess_projects():
+        jobs.append((idx, spec, 'root', False, args))
+        idx += 1
     # unity builds of targets that mix plain and generated sources of one or two languages
     for spec, args in unitymix_projects(ck.thorough):
         jobs.append((idx, spec, 'root', False, args))
